@@ -169,7 +169,8 @@ type writeRec struct {
 }
 
 type Engine struct {
-	writeLog   *[]writeRec // non-nil during a dry run
+	evTypes    map[string]map[string][]string // package path -> event name -> declared parameter types
+	writeLog   *[]writeRec                    // non-nil during a dry run
 	dry        int
 	Pkgs       map[string]*packages.Package // by package path
 	funcs      map[*types.Func]*ast.FuncDecl
@@ -707,6 +708,18 @@ func (e *Engine) lookup(fr *frame, st *State, obj types.Object) (Val, bool) {
 	return Val{}, false
 }
 
+func isNumeral(t *sx.T) bool {
+	if !t.IsAtom() || t.A == "" {
+		return false
+	}
+	for _, c := range t.A {
+		if c < '0' || c > '9' {
+			return false
+		}
+	}
+	return true
+}
+
 func byteTerm(v Val) *sx.T {
 	// an integer used as a byte inside a byte-slice literal or append
 	if v.T.IsAtom() {
@@ -852,10 +865,18 @@ func (e *Engine) eval(fr *frame, st *State, x ast.Expr, k cont) {
 		if isByteSlice(t) {
 			e.evalList(fr, st, x.Elts, func(st *State, vs []Val) {
 				var parts []*sx.T
+				var inRange []*sx.T
 				for _, v := range vs {
 					parts = append(parts, byteTerm(v))
+					if !isNumeral(v.T) { // a computed value stored into a buffer must be a byte, else the VM faults
+						inRange = append(inRange, sx.App("<=", sx.Int(0), v.T), sx.App("<=", v.T, sx.Int(255)))
+					}
 				}
-				k(st, nbv(cat(parts...)))
+				if len(inRange) == 0 {
+					k(st, nbv(cat(parts...)))
+					return
+				}
+				e.guard(fr, st, sx.And(inRange...), "value stored into a byte buffer is not a byte", func(st *State) { k(st, nbv(cat(parts...))) })
 			})
 			return
 		}
